@@ -1,7 +1,7 @@
 """C07 - a rejected configuration command leaves no trace (validate-then-mutate)."""
 import json, os
 import t2, lib, guards
-from mir import callee_of
+from mir import callee_of, op_local, op_place, pl_local
 from facts import Broken
 
 STATE = "sozu_command_lib::state::ConfigState"
@@ -26,6 +26,48 @@ def result_methods(F, ty_prefix, err_marker):
 def ordinal_key(events_in_fn, e):
     same = [x for x in events_in_fn if x["what"] == e["what"]]
     return same.index(e)
+
+
+def err_variant(F, b, pt):
+    """names of the error-enum variants that can be the payload of the failing exit `pt` (walks assignments and the
+    arguments / error-mapping closures of the calls that produced the value): the content-based part of an exit's key"""
+    if pt["si"] is not None:
+        rv = b.blocks[pt["bb"]]["s"][pt["si"]]["rv"]
+        work = [op_local(o) for o in rv.get("ops", [])]
+    else:
+        work = [op_local(a) for a in b.blocks[pt["bb"]]["t"]["args"]]
+    seen, out = set(), set()
+    n = 0
+    while work and n < 200:
+        l = work.pop()
+        n += 1
+        if l is None or l in seen:
+            continue
+        seen.add(l)
+        for d in b.defs().get(l, []):
+            if d[2] == "assign":
+                rv = d[3]
+                if rv["k"] == "agg" and rv.get("ak") == "adt":
+                    if rv["adt"].endswith("Error") or rv["adt"].endswith("Err"):
+                        out.add(rv["var"])
+                        continue
+                    work += [op_local(o) for o in rv["ops"]]
+                elif rv["k"] == "agg" and rv.get("ak") == "closure":
+                    cb = F.body(rv["clo"]) if F.has(rv["clo"]) else None
+                    if cb is not None:
+                        for _, _, s2 in cb.stmts():
+                            r2 = s2.get("rv")
+                            if r2 and r2["k"] == "agg" and r2.get("ak") == "adt" and (r2["adt"].endswith("Error") or r2["adt"].endswith("Err")):
+                                out.add(r2["var"])
+                elif rv["k"] in ("use", "cast"):
+                    pl = op_place(rv["a"])
+                    if pl is not None:
+                        work.append(pl_local(pl))
+                elif rv["k"] in ("ref", "raw"):
+                    work.append(pl_local(rv["pl"]))
+            elif d[2] == "call":
+                work += [op_local(a) if op_local(a) is not None else (pl_local(op_place(a)) if op_place(a) is not None else None) for a in d[3]["args"]]
+    return "+".join(sorted(out)) or "-"
 
 
 def run_family(F, rule, methods, census, exceptions, label, exit_exceptions={}):
@@ -63,14 +105,21 @@ def run_family(F, rule, methods, census, exceptions, label, exit_exceptions={}):
             rule.ok("%s|atomic" % p, b.where(), "%d mutation event(s), %d error exit(s), none ordered mutation->error"
                     % (len(evs), len(errs)), nontrivial=bool(evs and errs))
             continue
-        # one finding per failing exit: (function, kind of exit, ordinal among exits of that kind)
-        kinds = {}
-        for pt in sorted(errs, key=lambda x: (x["bb"], x["si"] or 0)):
-            kinds.setdefault(pt["what"], []).append((pt["bb"], pt["si"]))
+        # one finding per failing exit, keyed by content: (function, kind of exit, error variant carried, ordinal among
+        # the FAILING exits with that same content).  Exits that precede every mutation do not take part in the
+        # numbering, so adding, removing or restructuring validations ahead of the mutations leaves the keys unchanged.
+        failing = []
+        for e, pt in real:
+            if (pt["bb"], pt["si"]) not in [(x["bb"], x["si"]) for x in failing]:
+                failing.append(pt)
+        failing.sort(key=lambda x: (x["bb"], x["si"] or 0))
+        content = {(pt["bb"], pt["si"]): "%s|%s" % (pt["what"], err_variant(F, b, pt)) for pt in failing}
         seen = set()
         for e, pt in real:
-            ordn = kinds[pt["what"]].index((pt["bb"], pt["si"]))
-            k = "%s|exit %s#%d" % (p, pt["what"], ordn)
+            c = content[(pt["bb"], pt["si"])]
+            same = [x for x in failing if content[(x["bb"], x["si"])] == c]
+            ordn = [(x["bb"], x["si"]) for x in same].index((pt["bb"], pt["si"]))
+            k = "%s|exit %s#%d" % (p, c, ordn)
             if k in seen:
                 continue
             seen.add(k)
